@@ -3,7 +3,12 @@
    source; (2) the node budget over a whole parse: a successfully parsed document has at most
    1 + len + 256 * len * amp nodes (hence <= 256 * (len + 1) * (amp + 1)), for every input and all options;
    without a DOCTYPE at most len + 1 nodes; (3) the byte budget: the text of all Text nodes plus all attribute
-   values (text_len + value_len, BudgetBytesBuild.v) is at most len + 256 * len * amp bytes.
+   values (text_len + value_len, BudgetBytesBuild.v) is at most len + 256 * len * amp bytes.  (5) Whole documents on the
+   fragment of Spec/CstEnt.v: for a document whose only possible defect is the expansion (wf_syntax, and ginline = Some:
+   no undeclared name, no markup reaching an attribute), the detector limits DECIDE the outcome -- within 10 / 255 it parses
+   to its inlined meaning, otherwise Err EntityReferenceLoop (limits_decide_ent) -- hence a reference cycle reachable
+   from the body (cyclic_doc, defined on the declaration graph with first declarations), a reference path of 11 or more
+   names, or more than 255 expansions below one top-level reference are each rejected with EntityReferenceLoop.
    Statements are pinned here (copied verbatim from the proof files by tools/pin_props.py);
    each is re-proved by `exact` and followed by Print Assumptions. *)
 From Coq Require Import Ascii String.
@@ -13,6 +18,8 @@ From RX Require Import Generated.
 From RX.Model Require Import Base CharClass Stream Tokenizer Doc Builder Parse Api.
 From RX.Spec Require Import Detector.
 From RX.Proofs Require Import DetectorProofs OptionsParam OptionsBuild OptionsMain OptionsDtd BudgetStream BudgetTok BudgetBuild BudgetAcct BudgetMain BudgetNoEnt BudgetBytesBuild BudgetBytesTok BudgetBytesAcct BudgetBytesMain CycleStream CycleContent CycleAttr CycleEntered.
+From RX.Spec Require Cst CstText CstEnt.
+From RX.Proofs Require Import CstMain CstTextMain CstEntMain CstEntRejSem CstEntRejTrace CstEntRejMain.
 Open Scope N_scope.
 
 (* ---- Proofs/BudgetMain.v ---- *)
@@ -48,6 +55,67 @@ Theorem C09_expansion_budget_bytes_tight :
   text_len text d + value_len text d <= tlen text + 256 * tlen text * amp_count text.
 Proof. exact expansion_budget_bytes_tight. Qed.
 Print Assumptions C09_expansion_budget_bytes_tight.
+
+(* ---- Proofs/CstEntRejMain.v ---- *)
+Module G3.
+Module E := CstEnt. Module T := CstText.
+Theorem C09_limits_decide_ent :
+  forall (c : E.doc) (opt : options) (cT : T.doc) (tr : list Detector.lop),
+  wf_syntax c = true -> ginline c = Some (cT, tr) ->
+  E.provisos_item (T.d_root cT) = true ->
+  allow_dtd opt = true ->
+  N.of_nat (length (T.sem cT)) < nodes_limit opt ->
+  N.of_nat (length (T.sem cT)) < u32_max ->
+  N.of_nat (tdoc_nattrs cT) < u32_max ->
+  (Detector.within_limits 10 255 0 0 tr = true ->
+     exists d, parse (E.render c) opt = Ok d /\ view (E.render c) d = T.sem cT) /\
+  (Detector.within_limits 10 255 0 0 tr = false ->
+     exists pos, parse (E.render c) opt = Err (EntityReferenceLoop pos)) /\
+  ((exists d, parse (E.render c) opt = Ok d) <-> Detector.within_limits 10 255 0 0 tr = true) /\
+  ((exists pos, parse (E.render c) opt = Err (EntityReferenceLoop pos)) <-> Detector.within_limits 10 255 0 0 tr = false).
+Proof. exact limits_decide_ent. Qed.
+Print Assumptions C09_limits_decide_ent.
+
+Theorem C09_cycle_rejected_ent :
+  forall (c : E.doc) (opt : options) (cT : T.doc) (tr : list Detector.lop),
+  wf_syntax c = true -> ginline c = Some (cT, tr) ->
+  E.provisos_item (T.d_root cT) = true ->
+  allow_dtd opt = true ->
+  N.of_nat (length (T.sem cT)) < nodes_limit opt ->
+  N.of_nat (length (T.sem cT)) < u32_max ->
+  N.of_nat (tdoc_nattrs cT) < u32_max ->
+  cyclic_doc c ->
+  exists pos, parse (E.render c) opt = Err (EntityReferenceLoop pos).
+Proof. exact cycle_rejected_ent. Qed.
+Print Assumptions C09_cycle_rejected_ent.
+
+Theorem C09_depth_exceeded_rejected_ent :
+  forall (c : E.doc) (opt : options) (cT : T.doc) (tr : list Detector.lop) (L : nat),
+  wf_syntax c = true -> ginline c = Some (cT, tr) ->
+  E.provisos_item (T.d_root cT) = true ->
+  allow_dtd opt = true ->
+  N.of_nat (length (T.sem cT)) < nodes_limit opt ->
+  N.of_nat (length (T.sem cT)) < u32_max ->
+  N.of_nat (tdoc_nattrs cT) < u32_max ->
+  (11 <= L)%nat -> deep_doc c L ->
+  exists pos, parse (E.render c) opt = Err (EntityReferenceLoop pos).
+Proof. exact depth_exceeded_rejected_ent. Qed.
+Print Assumptions C09_depth_exceeded_rejected_ent.
+
+Theorem C09_budget_exceeded_rejected_ent :
+  forall (c : E.doc) (opt : options) (cT : T.doc) (tr : list Detector.lop),
+  wf_syntax c = true -> ginline c = Some (cT, tr) ->
+  E.provisos_item (T.d_root cT) = true ->
+  allow_dtd opt = true ->
+  N.of_nat (length (T.sem cT)) < nodes_limit opt ->
+  N.of_nat (length (T.sem cT)) < u32_max ->
+  N.of_nat (tdoc_nattrs cT) < u32_max ->
+  over_budget_doc c ->
+  exists pos, parse (E.render c) opt = Err (EntityReferenceLoop pos).
+Proof. exact budget_exceeded_rejected_ent. Qed.
+Print Assumptions C09_budget_exceeded_rejected_ent.
+
+End G3.
 
 (* ---- Proofs/DetectorProofs.v ---- *)
 Theorem C09_enter_agrees_model :
